@@ -35,6 +35,8 @@ structure S where
   loops : List (Option Txt)        := []   -- reconnect goroutines: what each captured when the daemon went away
   afterShutdown : Nat := 0         -- daemon calls issued by a reconnect loop after a manual shutdown
   shutdownBlocked : Bool := false  -- Shutdown had to signal a listener that does not exist
+  reports : Nat := 0               -- browse results the listener resolved and handed to the manager
+  undelivered : Nat := 0           -- browse results the daemon emitted and nobody took
   deriving Repr
 
 inductive Ev
@@ -45,6 +47,7 @@ inductive Ev
   | announce (t : Txt)
   | unannounce
   | shutdown
+  | service               -- the daemon emits a browse result (a daemon that holds a browser for this provider does)
   deriving DecidableEq, Repr
 
 /-- Start: set up, start, create the browser, make sure the listener runs -/
@@ -99,6 +102,11 @@ def step (c : Cfg) (s : S) : Ev → S
                       listenerAlive := false, browserRef := false }
     -- Unannounce, then the server is shut down
     { s with wanted := none, groupRef := false, published := none, session := false, browsing := false }
+
+  | .service =>
+    if !s.browsing then s
+    else if s.listenerAlive then { s with reports := s.reports + 1 }
+    else { s with undelivered := s.undelivered + 1 }
 
 def run (c : Cfg) (evs : List Ev) : S := evs.foldl (step c) {}
 
